@@ -74,6 +74,7 @@ func (ts *BackgroundTaskManager) DoPrioritizedTask() {
 	// Notify the prioritized task execution to background tasks.
 	ts.prioritizedTaskStartNotifyMu.Lock()
 	atomic.AddInt64(&ts.prioritizedTasks, 1)
+	verifTrace(ts, "prio.begin", 0, atomic.LoadInt64(&ts.prioritizedTasks))
 	close(ts.prioritizedTaskStartNotify)
 	ts.prioritizedTaskStartNotify = make(chan struct{})
 	ts.prioritizedTaskStartNotifyMu.Unlock()
@@ -86,6 +87,7 @@ func (ts *BackgroundTaskManager) DonePrioritizedTask() {
 		// Notify the task completion after `ts.prioritizedTaskSilencePeriod`
 		// so that background tasks aren't invoked immediately.
 		time.Sleep(ts.prioritizedTaskSilencePeriod)
+		verifTrace(ts, "prio.silence_end", 0, 0)
 		atomic.AddInt64(&ts.prioritizedTasks, -1)
 		ts.prioritizedTaskDoneCond.L.Lock()
 		ts.prioritizedTaskDoneCond.Broadcast()
@@ -98,6 +100,8 @@ func (ts *BackgroundTaskManager) DonePrioritizedTask() {
 // execution of all background tasks. Background task must be able to be
 // cancelled via context.Context argument and be able to be restarted again.
 func (ts *BackgroundTaskManager) InvokeBackgroundTask(do func(context.Context), timeout time.Duration) {
+	vid := verifNewInvocation(ts)
+	defer verifTrace(ts, "bg.return", vid, 0)
 	for {
 		// Wait until all prioritized tasks are done
 		for atomic.LoadInt64(&ts.prioritizedTasks) > 0 {
@@ -109,17 +113,21 @@ func (ts *BackgroundTaskManager) InvokeBackgroundTask(do func(context.Context), 
 			}
 			ts.prioritizedTaskDoneCond.L.Unlock()
 		}
+		verifTrace(ts, "bg.pass_wait", vid, 0)
 
 		// limited number of background tasks can run at once.
 		// if prioritized tasks are running, cancel this task.
 		if func() bool {
 			ts.backgroundSem.Acquire(context.Background(), 1)
 			defer ts.backgroundSem.Release(1)
+			verifTrace(ts, "bg.acquired", vid, 0)
+			defer verifTrace(ts, "bg.release", vid, 0)
 
 			// Get notify the prioritized tasks execution.
 			ts.prioritizedTaskStartNotifyMu.Lock()
 			ch := ts.prioritizedTaskStartNotify
 			tasks := atomic.LoadInt64(&ts.prioritizedTasks)
+			verifTrace(ts, "bg.decide", vid, tasks)
 			ts.prioritizedTaskStartNotifyMu.Unlock()
 			if tasks > 0 {
 				return false
@@ -133,17 +141,22 @@ func (ts *BackgroundTaskManager) InvokeBackgroundTask(do func(context.Context), 
 			)
 			defer cancel()
 			go func() {
+				verifTrace(ts, "body.start", vid, 0)
 				do(ctx)
+				verifTrace(ts, "body.end", vid, 0)
 				close(done)
 			}()
 
 			// Wait until the background task is done or canceled.
 			select {
 			case <-ch: // some prioritized tasks started; retry it later
+				verifTrace(ts, "bg.cancel", vid, 0)
 				cancel()
 				<-done // wait for the cancelled task so that it never overlaps with the retried one
+				verifTrace(ts, "bg.cancel_done", vid, 0)
 				return false
 			case <-done: // All tasks completed
+				verifTrace(ts, "bg.done", vid, 0)
 			}
 			return true
 		}() {
